@@ -50,8 +50,8 @@ Next ==
        [] e.ev = "total" -> Report("C13:total", e.res # "panic")
        [] e.ev = "bigfile" -> /\ Report("C13:total", e.res # "panic")
                               /\ e.res # "panic" => /\ Report("C13:wellformed_accepted", e.res = "ok")
-                                                     /\ e.res = "ok" => /\ Report("C13:arguments_in_declaration_order", e.args_ok /\ e.ids_ok)
-                                                                         /\ Report("C13:exact_attacks", e.atts_ok)
+                                                    /\ e.res = "ok" => /\ Report("C13:arguments_in_declaration_order", e.args_ok /\ e.ids_ok)
+                                                                       /\ Report("C13:exact_attacks", e.atts_ok)
        [] e.ev = "resp" -> JudgeResp(e)
        [] e.ev = "status" -> JudgeStatus(e)
        [] e.ev = "noext" -> JudgeNoExt(e)
